@@ -352,12 +352,20 @@ class SFTPFile(BufferedFile):
 
         :param size: the new size of the file
         """
+        # Bring the server up to date first: write out buffered data and
+        # forget read-ahead data, which may be about to disappear.  (The
+        # position seen by the caller does not move.)
+        self.seek(0, self.SEEK_CUR)
         self.sftp._log(
             DEBUG, "truncate({}, {!r})".format(hexlify(self.handle), size)
         )
         attr = SFTPAttributes()
         attr.st_size = size
         self.sftp._request(CMD_FSETSTAT, self.handle, attr)
+        if self._flags & self.FLAG_APPEND:
+            # append mode tracks the end of the file to know where writes
+            # land (see BufferedFile._write_all); it has just moved.
+            self._size = size
 
     def check(self, hash_algorithm, offset=0, length=0, block_size=0):
         """
